@@ -89,13 +89,15 @@ def run_case(case):
     mods = common.mods()
     mesh = case['mesh']
     lo, dx0 = families.GEOMS[3][case['geom']]
-    ref1 = Ref('p', 3, case['fields1'], mesh.ncell0, mesh.boxes, layout=case['layout1'], lo=lo, dx0=dx0)
-    ref2 = Ref('q', 3, case['fields2'], mesh.ncell0, mesh.boxes, layout=case['layout2'], lo=lo, dx0=dx0)
+    ref1 = Ref('p', 3, case['fields1'], mesh.ncell0, mesh.boxes, layout=case['layout1'], lo=lo, dx0=dx0, level_prefix=case.get('prefix1', 'Level_'))
+    ref2 = Ref('q', 3, case['fields2'], mesh.ncell0, mesh.boxes, layout=case['layout2'], lo=lo, dx0=dx0, level_prefix=case.get('prefix2', 'Level_'))
     f1, f2 = ref1.fields, ref2.fields
     sels = [(None, None), (' '.join(f1[:1]), None), (None, f2[-1:]), (' '.join(f1[::-1]), list(f2)), (list(f1[:1]), ' '.join(f2[:2])),
-            (' '.join(f1[-1:] + ['nope']), list(f2[:1]) + ['nope'])]
+            (' '.join(f1[-1:] + ['nope']), list(f2[:1]) + ['nope']),
+            # a name both inputs carry, left out of the first selection: it is "not already taken" and comes from the second
+            (' '.join(f1[-1:]), None)]
     if common.TIER == 'quick' and not case.get('full'):
-        sels = sels[:3] + sels[4:5]
+        sels = sels[:3] + sels[4:5] + sels[6:]
     viol = {}
     lc = layout_class(case['layout1'], case['layout2'])
     for vars1, vars2 in sels:
@@ -236,6 +238,11 @@ def cases():
             l2 = l1 if k == 0 else families.scatter_layouts(m, rnd, 3)
             out.append({'label': '%s/k%d' % (m.name, k), 'mesh': m, 'fields1': F1[(i + k) % 3], 'fields2': F2[(i + k) % 3], 'layout1': l1, 'layout2': l2,
                         'geom': (i + k) % 3, 'mismatch': k == 0, 'full': k == 0})
+    out.append({'label': '3box/17-digit-geometry', 'mesh': m3, 'fields1': F1[0], 'fields2': F2[0], 'layout1': [pairs[2][0]], 'layout2': [pairs[2][1]], 'geom': 3})
+    # level directories under other names than Level_n (each input its own)
+    for j, (l1, l2) in enumerate([pairs[1], pairs[len(pairs) // 2], pairs[-1]]):
+        out.append({'label': '3box/lev-prefix%d' % j, 'mesh': m3, 'fields1': F1[j % 3], 'fields2': F2[j % 3], 'layout1': [l1], 'layout2': [l2], 'geom': j % 3,
+                    'prefix1': ['Lev_', 'Level_', 'L'][j], 'prefix2': ['Lev_', 'amr_', 'Level_'][j], 'full': j == 0})
     for r in range(4 if tier == 'quick' else 150):
         m = families.random_mesh(rnd, 3, max_levels=2, max_boxes=4, max_extent=4)
         m.name = 'rand%d-3d' % r
